@@ -726,6 +726,11 @@ pub fn c08_case(rng: &mut Rng, max_objects: usize) -> String {
     })
 }
 
+/// (ar, cs, hp, od)
+pub fn lazer_da_pub(mode: u8, ar: Option<f64>, cs: Option<f64>, hp: Option<f64>, od: Option<f64>) -> GameMod {
+    lazer_da(mode, ar, cs, hp, od)
+}
+
 fn lazer_mode(m: u8) -> rosu_mods::GameMode {
     match m {
         0 => rosu_mods::GameMode::Osu,
